@@ -8,7 +8,7 @@ import parserutil
 from core import hx, exc_name
 
 ID = 'C07'
-MODULES = ['Httoop.Props.C07', 'Httoop.Props.C07Invariant']
+MODULES = ['Httoop.Props.C07', 'Httoop.Props.C07Invariant', 'Httoop.Props.C07Trailers']
 THEOREMS = [
 	'Httoop.Parser.bodyWithLength_invariant',
 	'Httoop.Parser.delivered_cl_matches',
@@ -24,6 +24,12 @@ THEOREMS = [
 	'Httoop.Parser.bodyComplete_framed',
 	'Httoop.Parser.delivered_messages_framed',
 	'Httoop.Parser.c07_invariant_witness',
+	'Httoop.Parser.mergeTrailers_only_announced',
+	'Httoop.Parser.trailer_fields_all_announced',
+	'Httoop.Parser.framing_fields_untouched',
+	'Httoop.Parser.parseTrailers_framing_untouched',
+	'Httoop.Parser.faithful_table',
+	'Httoop.Parser.c07_trailer_witness',
 ]
 TRUSTED = [
 	'Headers.append / pop and the element parsing of the Trailer field are the models of C08/C09 (tied there); zlib content codings are excluded (the property speaks of messages without a content coding)',
@@ -204,5 +210,5 @@ def finding_still_fails(k):
 LEVEL_TEXT = ('Theorems over ALL states and buffers: while a Content-Length body is read, octets received + octets outstanding stay equal to the announced length, so a delivered body has exactly that many octets (bodyWithLength_invariant, delivered_cl_matches); '
 	'a chunked message is delivered with Content-Length = decoded length and without Transfer-Encoding (delivered_not_chunked, from the map law of C08); with both fields on HTTP/1.1 chunked framing decides (te_over_cl); '
 	'and as an INVARIANT OF THE STATE MACHINE (delivered_messages_framed): for every sequence of parse() calls with any octets, on either side, every message handed out carries a Content-Length that the library\'s own integer() reads as the number of body octets delivered (the field the peer framed the body with, or the counted length for chunked and length-less bodies) and no Transfer-Encoding unless it is older than HTTP/1.1 (F6) - proved by an invariant J of the per-message state that every phase of the loop preserves across calls; '
-	'names accepted from the Trailer field never include Content-Length / Transfer-Encoding / Trailer (regenerated table) and any trailer field left unannounced is a 400. The whole matrix is compared with the code and judged by the oracle.')
+	'the trailer clause, for EVERY message state, trailer section and Trailer field: merging a trailer section changes a header field only if its canonical name was announced (mergeTrailers_only_announced), succeeds only if every field of the section was announced (trailer_fields_all_announced; anything left over is a 400), and leaves Content-Length, Transfer-Encoding and Trailer exactly as they were (framing_fields_untouched: a Trailer field naming one of them is refused as a whole, and no other spelling reaches their canonical names - checked on the registry of the tree, faithful_table). The whole matrix is compared with the code and judged by the oracle.')
 LEVEL_NOTE = 'Trusted: Lean kernel; parser model tested against the code; extract.py/correspondence. F6 (HTTP/1.0 + chunked) is a recorded finding.'
